@@ -37,6 +37,8 @@ func HostileStrings() []string {
 		"averyveryveryveryverylongwordwithoutanyspaces", "short words only here", "x y", strings.Repeat("<", 200), strings.Repeat("&amp;", 100), strings.Repeat("a b", 300), strings.Repeat("é", 500), strings.Repeat("0123456789", 100),
 		"a"+strings.Repeat("é", 1500), "ab"+strings.Repeat("中", 1400), "x"+strings.Repeat("😀", 1100), strings.Repeat("word ", 900)+strings.Repeat("é", 300),
 		strings.Repeat("<é>&", 1300), "q"+strings.Repeat("日本語", 1500),
+		// a real backslash before text that looks like an escape sequence of the template language or of JavaScript
+		"\\u0041", "\\n", "a\\u2028b", "\\\\u00e9", "\\'", "\\t\\u0062", "\\x41", "\\u004", "\\\\", "\\\\\\n", "\\0", "\\u{41}", "\\\r", "$\\u0024{",
 		"null", "true", "0", "-1", "1e3", "{$x}", "{", "}", "{{", "/*", "//", "\x00\x01\x02", "a\x00b", "\xff\xfe", "\xc3\x28", "\xe2\x82", "ok\xf0\x9f\x98",
 	)
 	hostileStrings = out
